@@ -28,6 +28,7 @@ import (
 	"verif/kit"
 
 	"github.com/open2b/scriggo"
+	"github.com/open2b/scriggo/native"
 )
 
 // ---- atoms ----
@@ -53,8 +54,12 @@ type part struct {
 type atom struct {
 	name  string
 	parts []part
-	open  int // +1 opens an if block, -1 closes one
+	open  int  // +1 opens a block (if or loop), -1 closes one
+	loop  bool // the block's body is executed loopCount times
 }
+
+// loopCount is the number of iterations of every loop atom.
+const loopCount = 2
 
 const bom = "\xef\xbb\xbf"
 
@@ -84,9 +89,53 @@ var atoms = []atom{
 	{name: "show", parts: []part{{pValue, `{{ "v" }}`}}},
 	{name: "render", parts: []part{{pRender, `{{ render "p.txt" }}`}}},
 	{name: "shebang", parts: []part{{pShebang, "#! x\n"}}},
+	// loop atoms (closed by the end atom); used by the loop.* spaces only
+	{name: "for3", parts: []part{{pBlock, "{% for i := 0; i < 2; i++ %}"}}, open: +1, loop: true},
+	{name: "for-break", open: +1, loop: true}, // parts depend on the position, see partsOf
+	{name: "for-range", parts: []part{{pBlock, "{% for _, x := range []int{1,2} %}"}}, open: +1, loop: true},
+	{name: "end-for-break", open: -1}, // closes for-break only; parts depend on the opener, see partsOf
 }
 
 const shebangAtom = 21
+
+const (
+	nBaseAtoms      = 22 // the alphabet of the seq.* spaces
+	forBreakAtom    = 23
+	endForBreakAtom = 25
+)
+
+// partsOf returns the parts of the atom at position pos of seq. Only the end of
+// the condition-less loop depends on the position: the body of "{% for %}" ends
+// with the guard "{% nP++ %}{% if nP == 2 %}{% nP = 0 %}{% break %}{% end %}"
+// where nP is a global int counter of the opener's position P (declared in
+// BuildOptions.Globals, zero at every Run). So the body runs exactly twice,
+// no statement stands between the text before "{% for %}" and the text of the
+// body, and several such loops, nested or not, do not disturb each other.
+func partsOf(seq []int, pos int) []part {
+	switch seq[pos] {
+	case forBreakAtom:
+		return []part{{pBlock, "{% for %}"}}
+	case endForBreakAtom:
+		// the matching opener
+		depth, q := 0, pos-1
+		for ; q >= 0; q-- {
+			depth += atoms[seq[q]].open
+			if depth == 1 {
+				break
+			}
+		}
+		n := fmt.Sprintf("n%d", q)
+		return []part{
+			{pBlock, "{% " + n + "++ %}"},
+			{pBlock, "{% if " + n + " == 2 %}"},
+			{pBlock, "{% " + n + " = 0 %}"},
+			{pBlock, "{% break %}"},
+			{pBlock, "{% end %}"},
+			{pBlock, "{% end %}"},
+		}
+	}
+	return atoms[seq[pos]].parts
+}
 
 var atomNames = func() []string {
 	n := make([]string, len(atoms))
@@ -143,14 +192,23 @@ type lineInfo struct {
 type model struct {
 	elems []elem
 	lines []lineInfo
+	// stream is the execution order of the elements: indexes into elems,
+	// with the elements of a loop body repeated loopCount times. The labels
+	// (must / optional / absent) belong to the source bytes, so every
+	// iteration is held to the same per-line rules.
+	stream []int
+	// repeats reports whether some byte or printing token is in a loop body.
+	repeats bool
 }
 
 // buildModel labels the source. seq are atom indexes.
 func buildModel(seq []int) *model {
 	m := &model{}
 	line := 0
-	for pos, ai := range seq {
-		for _, p := range atoms[ai].parts {
+	first := make([]int, len(seq)+1) // first[p] = index of the first element of atom p
+	for pos := range seq {
+		first[pos] = len(m.elems)
+		for _, p := range partsOf(seq, pos) {
 			k := p.kind
 			if k == pShebang && pos != 0 {
 				k = pText // "#!" is special only at the very start of the source
@@ -176,6 +234,35 @@ func buildModel(seq []int) *model {
 			}
 		}
 	}
+	first[len(seq)] = len(m.elems)
+	// execution order
+	var unroll func(lo, hi int, inLoop bool)
+	unroll = func(lo, hi int, inLoop bool) {
+		for p := lo; p < hi; p++ {
+			for k := first[p]; k < first[p+1]; k++ {
+				m.stream = append(m.stream, k)
+				if e := &m.elems[k]; inLoop && (!e.tok || e.kind == pValue || e.kind == pRender) {
+					m.repeats = true
+				}
+			}
+			if !atoms[seq[p]].loop {
+				continue
+			}
+			// find the end atom that closes this loop
+			depth, q := 1, p+1
+			for ; q < hi; q++ {
+				depth += atoms[seq[q]].open
+				if depth == 0 {
+					break
+				}
+			}
+			for it := 0; it < loopCount; it++ {
+				unroll(p+1, q, true)
+			}
+			p = q - 1 // the end atom itself is emitted by the next step
+		}
+	}
+	unroll(0, len(seq), false)
 	// lines
 	for i := 0; i < len(m.elems); {
 		j := i
@@ -292,7 +379,7 @@ func (m *model) match(out []byte) bool {
 		}
 		return append(s, p)
 	}
-	for i := range m.elems {
+	for _, i := range m.stream {
 		e := &m.elems[i]
 		next = next[:0]
 		if e.tok {
@@ -410,25 +497,35 @@ func kindName(k partKind) string {
 
 func source(seq []int) string {
 	var b strings.Builder
-	for _, ai := range seq {
-		for _, p := range atoms[ai].parts {
+	for pos := range seq {
+		for _, p := range partsOf(seq, pos) {
 			b.WriteString(p.text)
 		}
 	}
 	return b.String()
 }
 
-// wellNested reports whether every {% end %} closes an open {% if true %} and
-// every if is closed.
+// wellNested reports whether every {% end %} closes an open {% if true %} or
+// loop and every block is closed.
 func wellNested(seq []int) bool {
-	depth := 0
+	var stack []int
 	for _, ai := range seq {
-		depth += atoms[ai].open
-		if depth < 0 {
-			return false
+		switch {
+		case atoms[ai].open > 0:
+			stack = append(stack, ai)
+		case atoms[ai].open < 0:
+			if len(stack) == 0 {
+				return false
+			}
+			// the guarded end closes the condition-less loop and nothing else;
+			// a plain end would leave that loop without its break
+			if (stack[len(stack)-1] == forBreakAtom) != (ai == endForBreakAtom) {
+				return false
+			}
+			stack = stack[:len(stack)-1]
 		}
 	}
-	return depth == 0
+	return len(stack) == 0
 }
 
 // accidental reports whether two adjacent atoms join into a template
@@ -438,13 +535,13 @@ func wellNested(seq []int) bool {
 // the checked space.
 func accidental(seq []int) bool {
 	for i := 0; i+1 < len(seq); i++ {
-		a, b := atoms[seq[i]], atoms[seq[i+1]]
-		last := a.parts[len(a.parts)-1]
+		ap, bp := partsOf(seq, i), partsOf(seq, i+1)
+		last := ap[len(ap)-1]
 		if last.kind != pText && !(last.kind == pShebang && i != 0) {
 			continue
 		}
 		c := last.text[len(last.text)-1]
-		d := b.parts[0].text[0]
+		d := bp[0].text[0]
 		if c == '{' && (d == '{' || d == '%' || d == '#') {
 			return true
 		}
@@ -457,7 +554,25 @@ func accidental(seq []int) bool {
 
 // ---- evaluation ----
 
-func evalSeq(ext string, seq []int) kit.Outcome {
+// buildOptions declares the loop counters n0..n7 (int, zero at every Run).
+var buildOptions = func() *scriggo.BuildOptions {
+	d := native.Declarations{}
+	for i := 0; i < 8; i++ {
+		d[fmt.Sprintf("n%d", i)] = (*int)(nil)
+	}
+	return &scriggo.BuildOptions{Globals: d}
+}()
+
+func evalSeq(ext string, seq []int, loopSpace bool) kit.Outcome {
+	if loopSpace {
+		has := false
+		for _, a := range seq {
+			has = has || atoms[a].loop
+		}
+		if !has {
+			return kit.Outcome{OK: true, Class: "no loop atom (such sequences belong to seq.*)"}
+		}
+	}
 	if !wellNested(seq) {
 		return kit.Outcome{OK: true, Class: "ill-nested"}
 	}
@@ -467,7 +582,7 @@ func evalSeq(ext string, seq []int) kit.Outcome {
 	src := source(seq)
 	name := "index." + ext
 	fsys := scriggo.Files{name: []byte(src), "p.txt": []byte("P")}
-	t, err := scriggo.BuildTemplate(fsys, name, nil)
+	t, err := scriggo.BuildTemplate(fsys, name, buildOptions)
 	if err != nil {
 		return kit.Outcome{OK: true, Class: "BuildError", Ops: len(src)}
 	}
@@ -503,6 +618,14 @@ func evalSeq(ext string, seq []int) kit.Outcome {
 		o.Class = "ran: syntax on content lines only"
 	}
 	o.Nontrivial = syntax
+	if loopSpace {
+		if m.repeats {
+			o.Class = "loop, body with text or output x2; " + o.Class
+		} else {
+			o.Class = "loop, silent body; " + o.Class
+			o.Nontrivial = false
+		}
+	}
 	if key := m.verdict(out.Bytes()); key != "" {
 		o.OK = false
 		o.Key = key
@@ -539,7 +662,7 @@ func (m *model) describe() string {
 			b.WriteString("[" + q + "]-")
 		}
 	}
-	return b.String() + "   — x = must appear, (x)? = may disappear, [x]- = must be removed, <…> = token output"
+	return b.String() + "   — x = must appear, (x)? = may disappear, [x]- = must be removed, <…> = token output; the elements between a loop statement and its end occur 2 times"
 }
 
 func kindOrValue(k partKind) string {
@@ -554,7 +677,7 @@ func spaces(tier string) []kit.Space {
 	if tier == "thorough" {
 		n = 5
 	}
-	en := kit.NewStringsUpTo(atomNames, n)
+	en := kit.NewStringsUpTo(atomNames[:nBaseAtoms], n)
 	var sps []kit.Space
 	for _, ext := range formats {
 		ext := ext
@@ -569,7 +692,7 @@ func spaces(tier string) []kit.Space {
 						return kit.Outcome{OK: true, Class: "shebang-not-first"}
 					}
 				}
-				return evalSeq(ext, seq)
+				return evalSeq(ext, seq, false)
 			},
 			Describe: func(i uint64) any {
 				seq := en.Atoms(i)
@@ -577,15 +700,48 @@ func spaces(tier string) []kit.Space {
 			},
 		})
 	}
+	// loop spaces: a reduced alphabet, one atom longer, every sequence with at
+	// least one loop
+	var loopNames []string
+	for _, a := range loopAlphabet {
+		loopNames = append(loopNames, atoms[a].name)
+	}
+	len2 := kit.NewStringsUpTo(loopNames, n+1)
+	loopSeq := func(i uint64) []int {
+		seq := len2.Atoms(i)
+		for k, a := range seq {
+			seq[k] = loopAlphabet[a]
+		}
+		return seq
+	}
+	for _, ext := range formats {
+		ext := ext
+		sps = append(sps, kit.Space{
+			Name: "loop." + ext,
+			Size: len2.Size(),
+			Eval: func(i uint64) kit.Outcome { return evalSeq(ext, loopSeq(i), true) },
+			Describe: func(i uint64) any {
+				seq := loopSeq(i)
+				return map[string]any{"format": ext, "atoms": names(seq), "template": source(seq), "p.txt": "P"}
+			},
+		})
+	}
 	return sps
 }
+
+// loopAlphabet is the alphabet of the loop.* spaces: a, space, LF, comment,
+// if, end, raw-marker, show, render, the three loop atoms and the guarded
+// end of the condition-less loop.
+var loopAlphabet = []int{0, 1, 3, 12, 14, 15, 17, 19, 20, 22, 23, 24, 25}
 
 func main() {
 	kit.Main(&kit.Check{
 		ID:    "C15",
 		Level: "model_checking",
-		Rule: "every sequence of length <= 4 (quick) / <= 5 (thorough) over 22 atoms (12 text atoms: a, space, tab, LF, CRLF, {, }, %, #, BOM, <b>, *; 10 syntax atoms: two comments, if/end, two raw blocks, {%% %%}, a value show, a render, a shebang line) in each of the 6 formats; " +
-			"sequences that are ill-nested, have the shebang atom after position 0, or whose adjacent atoms join into a delimiter ({{ {% {# #}) are classified and not built; a case is non-trivial when it builds, runs and contains at least one syntax atom. Indices enumerate distinct atom sequences (mixed radix)",
+		Rule: "seq.*: every sequence of length <= 4 (quick) / <= 5 (thorough) over 22 atoms (12 text atoms: a, space, tab, LF, CRLF, {, }, %, #, BOM, <b>, *; 10 syntax atoms: two comments, if/end, two raw blocks, {%% %%}, a value show, a render, a shebang line) in each of the 6 formats; " +
+			"sequences that are ill-nested, have the shebang atom after position 0, or whose adjacent atoms join into a delimiter ({{ {% {# #}) are classified and not built; a case is non-trivial when it builds, runs and contains at least one syntax atom. Indices enumerate distinct atom sequences (mixed radix). " +
+			"loop.*: every sequence of length <= 5 (quick) / <= 6 (thorough) over 13 atoms (a, space, LF, comment, if, end, marked raw block, value show, render, and three loops that run their body exactly twice: a three-clause for, a for range over a two-element slice, and a condition-less {% for %} — with its own closing atom that holds the break guard, so that body text directly follows {% for %}; loops nest freely) in each of the 6 formats; sequences without a loop atom are classified and not built; " +
+			"a loop case is non-trivial when it builds, runs and some literal byte or printing token is inside a loop body",
 		Assumptions: []string{
 			"whitespace = space, tab, CR, LF; a line ends at LF (also inside raw content); CR occurs only as CRLF",
 			"a value show may print v or \"v\" and the render P or \"P\" (the context decides the quoting, which C06-C08 check)",
@@ -593,6 +749,7 @@ func main() {
 			"a statement-only last line without a newline may or may not be removed; blank lines (no token) must be preserved",
 			"the shebang line's text must not be emitted; its newline may or may not be",
 			"raw block contents start and end with a non-space byte, so the raw markers share their line with content",
+			"the elements of a loop body occur exactly twice, in order, each occurrence under the same per-line rules (the rules are labels of source bytes); optional whitespace may be kept in one iteration and dropped in the other; a line holding only one loop statement follows (e); the condition-less loop's guard statements (in its closing atom) make every line they are on a line with several statements, constrained by (a)-(d) only",
 		},
 		Spaces: spaces,
 	})
